@@ -5,9 +5,9 @@
 //@ extract LOOPS from src/correlation.rs anchor "let mut pearson_coeffs = Array1::zeros(" lines 11
 //@ rewrite LOOPS "Array1::zeros(" => "zeros("
 //@ rewrite LOOPS "pearson_coeffs[k] = covariance[(i, j)] / std_deviation[i] / std_deviation[j];" => "pearson_coeffs.set(k, quotient(i, j));"
-//@ insert LOOPS before-brace "for i in 0..(nfeatures - 1)" : invariant n == nfeatures, 1 <= n, k == off(n, i as int), pearson_coeffs@.len() == off(n, n - 1), forall|a: int, b: int| 0 <= a < b < n && a < i ==> #[trigger] holds(pearson_coeffs@, n, a, b),
-//@ insert LOOPS before-brace "for j in (i + 1)..nfeatures" : invariant n == nfeatures, 1 <= n, i < n - 1, k == off(n, i as int) + (j - (i + 1)), pearson_coeffs@.len() == off(n, n - 1), off(n, i as int + 1) == off(n, i as int) + (n - (i + 1)), forall|a: int, b: int| 0 <= a < b < n && (a < i || (a == i && b < j)) ==> #[trigger] holds(pearson_coeffs@, n, a, b),
-//@ insert LOOPS before "for j in (i + 1)..nfeatures" : proof { assert(off(n, i as int + 1) == off(n, i as int) + (n - (i + 1))); }
+//@ insert LOOPS before-brace "for i in " : invariant n == nfeatures, 1 <= n, k == off(n, i as int), pearson_coeffs@.len() == off(n, n - 1), forall|a: int, b: int| 0 <= a < b < n && a < i ==> #[trigger] holds(pearson_coeffs@, n, a, b),
+//@ insert LOOPS before-brace "for j in " : invariant n == nfeatures, 1 <= n, i < n - 1, k == off(n, i as int) + (j - (i + 1)), pearson_coeffs@.len() == off(n, n - 1), off(n, i as int + 1) == off(n, i as int) + (n - (i + 1)), forall|a: int, b: int| 0 <= a < b < n && (a < i || (a == i && b < j)) ==> #[trigger] holds(pearson_coeffs@, n, a, b),
+//@ insert LOOPS before "for j in " : proof { assert(off(n, i as int + 1) == off(n, i as int) + (n - (i + 1))); }
 //@ insert LOOPS before "pearson_coeffs.set(k, quotient(i, j));" : let ghost before = pearson_coeffs@; proof { lemma_pos_bounds(n, i as int, j as int); assert(k == pos(n, i as int, j as int)); assert(k < pearson_coeffs.len()); }
 //@ insert LOOPS after "pearson_coeffs.set(k, quotient(i, j));" : proof { assert forall|a: int, b: int| 0 <= a < b < n && (a < i || (a == i && b < j + 1)) implies #[trigger] holds(pearson_coeffs@, n, a, b) by { if a == i && b == j { } else { assert(holds(before, n, a, b)); lemma_pos_bounds(n, a, b); if a < i { lemma_off_mono(n, a + 1, i as int); } assert(pos(n, a, b) != k); } } }
 //@ expect-fail vacuity_guard_coeff_order
